@@ -105,6 +105,14 @@ impl Shadow {
                     f.durable.clear();
                 }
             }
+            Ev::Rename { from, to, ok, .. } => {
+                if *ok && from != to {
+                    // directory entries are not lost in the crash model: the file is the same
+                    // file under its new name, what was synced of it stays synced
+                    let src = std::mem::take(self.file_mut(*from));
+                    *self.file_mut(*to) = src;
+                }
+            }
             _ => {}
         }
     }
@@ -255,6 +263,19 @@ pub fn read_image(dir: &str) -> std::io::Result<Image> {
         let e = e?;
         let name = e.file_name().to_string_lossy().to_string();
         if name.starts_with("r-") && name.ends_with(".wal") {
+            m.insert(name, std::fs::read(e.path())?);
+        }
+    }
+    Ok(m)
+}
+
+/// Every regular file of the directory except the lock file (the self-check of the trace).
+pub fn read_image_all(dir: &str) -> std::io::Result<Image> {
+    let mut m = Image::new();
+    for e in std::fs::read_dir(dir)? {
+        let e = e?;
+        let name = e.file_name().to_string_lossy().to_string();
+        if name != "LOCK" && name != "witness" && e.file_type().map(|t| t.is_file()).unwrap_or(false) {
             m.insert(name, std::fs::read(e.path())?);
         }
     }
